@@ -2,18 +2,26 @@ package main
 
 import (
 	"fmt"
+	"strings"
+	"time"
 
 	"github.com/VolantMQ/vlapi/mqttp"
 )
 
 func init() {
 	subcmds["dbg"] = func(args []string) int {
-		for q := 0; q < 3; q++ {
-			raw, err := c06Build(mqttp.ProtocolV50, c06Pkt{T: 15, QoS: q}, 1)
-			fmt.Println(q, raw, err)
-		}
-		a := mqttp.NewAuth(mqttp.ProtocolV50)
-		fmt.Println(a.SetReasonCode(mqttp.CodeReAuthenticate))
+		au := &progAuth{acl: func(_, _, topic string, write bool) bool { return !strings.HasPrefix(topic, "no/") }}
+		b, _ := NewBroker(BrokerOpts{Auth: []*progAuth{au}})
+		c := b.Dial()
+		_, err := c.Connect(ConnectOpts{ID: "a", Ver: mqttp.ProtocolV50, Clean: true})
+		fmt.Println(err)
+		_ = c.Send(mkSubscribe(mqttp.ProtocolV50, 9, []string{"no/x", "ok/x"}, []byte{1, 1}))
+		time.Sleep(100 * time.Millisecond)
+		tmp := make([]byte, 100)
+		n, e := c.conn.Read(tmp)
+		fmt.Println(tmp[:n], e)
+		p, _, err := mqttp.Decode(mqttp.ProtocolV50, tmp[:n])
+		fmt.Println(p, err)
 		return 0
 	}
 }
